@@ -8,6 +8,7 @@ CONSTANTS
   MaxTick = 0
   NP = 1
   Limit = 1
+  MaxAErr = 0
   MaxFail = 1
   MaxAbort = 0
 SPECIFICATION SpecDg
